@@ -818,7 +818,7 @@ func Checks() map[string]*simcore.Check {
 		Components: simcore.Components{
 			Real: []string{"triedb/hashdb.Database (Update, Reference, Dereference, Cap, Commit, cleaner, NodeReader, Size)", "trie.Trie and its committer (node sets, leaf collection)", "trie.ForGatherChildren", "core/rawdb legacy trie node accessors", "fastcache clean cache (when enabled)"},
 			Stub: []string{"disk: simdisk.SimKV over memorydb (op log, batch size inflation, injected batch write errors)", "the state layer (StateDB, blockchain GC policy) is replaced by the plan"}},
-		Runs: map[string]int{"quick": 16000, "thorough": 800000},
+		Runs: map[string]int{"quick": 30000, "thorough": 800000},
 		Gen:  gen, Decode: decode, Run: run, Shrink: shrink,
 		ProbeNames: []string{"dropped-root-shares-nodes-with-live-root", "storage-root-shared-by-accounts", "root-referenced-twice", "cap-flushed-partially", "cap-flushed-everything", "cap-several-batches",
 			"commit-wrote-nodes", "commit-several-batches", "update-redeclares-dirty-node", "update-reinserts-flushed-node", "all-references-dropped", "rewrite-account", "rewrite-storage-slot"},
